@@ -52,7 +52,8 @@ partial def loop (ck : Checker) (h : IO.FS.Stream) (out : IO.FS.Stream)
     | some k => out.putStrLn s!"NOTE case={caseId} line={lineNo} key={k}"
     | none => pure ()
     -- a panic of the real code is a concrete failing input for every property
-    let mon := if impl.startsWith "PANIC" then some ("panic", impl) else r.monitor
+    -- (the property's own monitor may classify it more precisely: its verdict wins)
+    let mon := if impl.startsWith "PANIC" then r.monitor.orElse (fun _ => some ("panic", impl)) else r.monitor
     match mon with
     | some (k, msg) =>
       out.putStrLn s!"MONITOR case={caseId} line={lineNo} key={k} op={op} msg={msg}"
